@@ -1,6 +1,7 @@
 import JT.Props.C06
 import JT.Proof.GoReply
 import JT.Proof.GoLoc
+import JT.Proof.GoModelBcd
 /-!
 # C06 — reply bodies as they stand in the source
 
@@ -49,5 +50,20 @@ location block and the payload contain -/
 theorem source_multimedia_reply_bytes (fuel : Nat) (t : model_T0x0801) (j : jt808_JTMessage) (h36 : 36 ≤ j.Body.length) (hf : 6 < fuel) :
     ∃ t', model_T0x0801_ReplyBody fuel t j = .ok (t', Go.be32 (JT.Go.u32v (j.Body.take 4)), none) :=
   T0x0801_ReplyBody_eq fuel t j h36 hf
+
+/-- the authentication reply never panics: for every header version, every body and every handler state
+`T0x0102.ReplyBody` returns — a body or the parse error -/
+theorem source_auth_reply_total (fuel : Nat) (t : model_T0x0102) (j : jt808_JTMessage) :
+    ∃ r, model_T0x0102_ReplyBody fuel t j = .ok r := by
+  obtain ⟨⟨t', e⟩, hp⟩ := (Go.X.isOk_iff _).mp (T0x0102_Parse_total fuel t j)
+  cases e with
+  | none => exact ⟨_, (T0x0102_ReplyBody_eq fuel t j).2 t' hp⟩
+  | some e => exact ⟨_, (T0x0102_ReplyBody_eq fuel t j).1 t' e hp⟩
+
+/-- an upload shorter than 36 bytes is answered with the ID the handler object holds from the connection's previous upload
+(the parse error is ignored by `ReplyBody`) — the handler state `HState.mmid` of the reply model is exactly this -/
+theorem source_multimedia_reply_short (fuel : Nat) (t : model_T0x0801) (j : jt808_JTMessage) (h : j.Body.length < 36) :
+    model_T0x0801_ReplyBody fuel t j = .ok (t, Go.be32 t.MultimediaID, none) :=
+  T0x0801_ReplyBody_short fuel t j h
 
 end JT.C06
